@@ -440,13 +440,27 @@ def check_classes(ctx):
         en = paths.Enumerator()
         ps = en.run(loops[0].body, paths.State())
         ctx.paths += len(ps)
-        default_vals = {n.value.value for n in ast.walk(f) if isinstance(n, ast.Assign) and src(n.targets[0]) == 'default'
-                        and isinstance(n.value, ast.Constant)}
+        # the local that holds the default mode: the name assigned the mode literals in front of the loop (whatever it is called)
+        cnt = {}
+        for n in ast.walk(f):
+            if isinstance(n, ast.Assign) and isinstance(n.targets[0], ast.Name) and isinstance(n.value, ast.Constant) \
+                    and n.value.value in ('binomial', 'duplicate', 'perfect', 'custom'):
+                cnt.setdefault(n.targets[0].id, set()).add(n.value.value)
+        dvar = max(cnt, key=lambda k_: len(cnt[k_])) if cnt else 'default'
+        default_vals = cnt.get(dvar, set())
+        # the local that holds the species' index: M.get_species_index(<loop variable>)
+        ivar = None
+        for n in loops[0].body:
+            if isinstance(n, ast.Assign) and isinstance(n.targets[0], ast.Name) and isinstance(n.value, ast.Call) and \
+                    src(n.value.func).endswith('.get_species_index') and [src(a_) for a_ in n.value.args] == [src(loops[0].target)]:
+                ivar = n.targets[0].id
+        if ivar is None:
+            problems.append('the index of the species of the loop is not taken with get_species_index(%s)' % src(loops[0].target))
         for p in ps:
             if p.exit == 'raise':
                 continue
             ruled_out = {e.node.comparators[0].value for e in p.events if e.kind == 'test' and e.info is False
-                         and isinstance(e.node, ast.Compare) and src(e.node.left) == 'default' and isinstance(e.node.ops[0], ast.Eq)
+                         and isinstance(e.node, ast.Compare) and src(e.node.left) == dvar and isinstance(e.node.ops[0], ast.Eq)
                          and isinstance(e.node.comparators[0], ast.Constant)}
             if default_vals and ruled_out >= default_vals:
                 continue    # infeasible: `default` only ever holds one of these literals
@@ -458,7 +472,7 @@ def check_classes(ctx):
                 if isinstance(n, ast.If) and isinstance(n.test, ast.Compare) and isinstance(n.test.comparators[0], ast.Constant) \
                         and n.test.comparators[0].value == mode and isinstance(n.test.ops[0], ast.Eq):
                     b = [util.stmt_key(x) for x in n.body]
-                    if b != ['self.%s_indices.push_back(index)' % mode]:
+                    if b != ['self.%s_indices.push_back(%s)' % (mode, ivar)]:
                         problems.append("mode '%s' puts the species into %s" % (mode, b))
     ctx.ob('R19.1-index-classes', 'LineageVolumeSplitter', not problems, ctx.loc('lineage', f),
            'every species index is pushed into exactly one class, the one named by its option or the default', '; '.join(problems[:3]))
